@@ -1194,7 +1194,12 @@ func (db *DB) allocate(txid common.Txid, count int) (*common.Page, error) {
 			// while it is harmless on other platforms.
 			nextAllocSize = nextMmapSize
 		} else {
-			// On non-Windows platforms, the database file is only grown explicitly in grow calls.
+			// On non-Windows platforms, the database file is only grown explicitly in grow calls,
+			// which size the file from the mmap size in effect at that time: the current one,
+			// unless this allocation forces a larger remap.
+			if db.datasz > nextMmapSize {
+				nextMmapSize = db.datasz
+			}
 			nextAllocSize = db.growSize(nextMmapSize, nextAllocSize)
 		}
 		if nextAllocSize > db.MaxSize {
